@@ -1,72 +1,28 @@
 ------------------------------- MODULE MC_C01 -------------------------------
 (***************************************************************************)
-(* Bounded model for C01 (and the scenario source for C04, C05):           *)
-(* every connected network of at most MaxB branches over the nodes         *)
-(* 0..MaxN-1, every element kind, both terminal orders, parallel branches, *)
-(* every reference node.  Values depend on the branch position so that a   *)
-(* value taken from the wrong branch shows.                                *)
+(* Bounded model for C01: every connected network of at most MaxB branches *)
+(* over the nodes 0..MaxN-1, every element kind, both terminal orders,     *)
+(* parallel branches, every reference node.                                *)
 (* TLC checks on each reachable well-posed network that the constructive   *)
 (* solution (MNA + Cramer) satisfies the declarative circuit equations,    *)
 (* and prints the scenario with the exact expected observation.            *)
 (***************************************************************************)
-EXTENDS Net, Json
-CONSTANTS MaxB, MaxN, Kinds, Canon, ValTab
-VARIABLES br, ref
+EXTENDS NetGen
 
-vars == <<br, ref>>
-Nodes == 0..(MaxN - 1)
-Prime(p) == ValTab[p]
-ValsPrime == <<2, 3, 5, 7, 11, 13>>
-ValsSmall == <<1, 2, 3, 2, 1, 3>>
 
-\* element of kind k at list position p
-Elem(k, p) ==
-  CASE k = "R"  -> EResistor(CI(Prime(p)))
-    [] k = "G"  -> EConductor(CR(1, Prime(p)))
-    [] k = "Z"  -> EImpedance(<<RI(Prime(p)), RI(p)>>)
-    [] k = "Y"  -> EAdmittance(<<Q(1, Prime(p)), Q(-1, p + 1)>>)
-    [] k = "LV" -> ELoadV(CI(Prime(p)), CI(2), CI(p - 1))
-    [] k = "LI" -> ELoadI(CI(Prime(p)), CI(3), CI(1 - p))
-    [] k = "V"  -> EVoltageSource(<<RI(p + 1), RI(p % 2)>>, C0)
-    [] k = "VL" -> EVoltageSource(<<RI(Prime(p)), RI(-1)>>, CI(p))
-    [] k = "I"  -> ECurrentSource(<<RI(p), RI((p + 1) % 2)>>, C0)
-    [] k = "IL" -> ECurrentSource(CI(Prime(p)), <<Q(1, p + 1), Q(1, 2)>>)
-    [] k = "LVr" -> ELoadV(CI(Prime(p)), CI(2), C0)
-    [] k = "LIr" -> ELoadI(CI(Prime(p)), CI(3), C0)
-    [] k = "Vr"  -> EVoltageSource(CI(p + 1), C0)
-    [] k = "VLr" -> EVoltageSource(CI(Prime(p)), CI(p))
-    [] k = "Ir"  -> ECurrentSource(CI(p), C0)
-    [] k = "ILr" -> ECurrentSource(CI(Prime(p)), CR(1, p + 1))
-    [] k = "S"  -> EShort
-    [] k = "O"  -> EOpen
-
-KindNo(k) == CHOOSE i \in 1..18 : <<"R","G","Z","Y","LV","LI","V","VL","I","IL","S","O","LVr","LIr","Vr","VLr","Ir","ILr">>[i] = k
-Code(n1, n2, k) == (n1 * MaxN + n2) * 32 + KindNo(k)
-LastCode == IF br = <<>> THEN 0 ELSE LET b == br[Len(br)] IN Code(b.n1, b.n2, b.e.kk)
-
-Init == br = <<>> /\ ref \in Nodes
-AddBranch == /\ Len(br) < MaxB
-             /\ \E n1 \in Nodes, n2 \in Nodes, k \in Kinds :
-                  /\ n1 # n2
-                  /\ (Canon => Code(n1, n2, k) >= LastCode)
-                  /\ br' = Append(br, Br(Len(br) + 1, n1, n2, Elem(k, Len(br) + 1) @@ [kk |-> k]))
-             /\ UNCHANGED ref
-Next == AddBranch
-Spec == Init /\ [][Next]_vars
-
-InDomain == Connected(br) /\ Used(br) = 0..(Cardinality(Used(br)) - 1) /\ WellPosed(br, ref)
-
-\* ---- properties checked on the model itself
-C01_Kirchhoff == InDomain => SolvedIsSolution(br, ref)
-C05_Tellegen  == InDomain => PowerBalance(br, ref, Solve(br, ref))
-
-\* ---- scenario emission (spec -> code replay)
-Expect == LET s == Solve(br, ref) IN
+\* ---- properties checked on the model itself, and scenario emission (spec -> code replay),
+\* in one pass over the solution.  Assert names the violated property.
+Observe(s) ==
   [phi |-> [n \in Used(br) |-> Phi(br, ref, s, n)],
    u   |-> [i \in DOMAIN br |-> U(br, ref, s, i)],
    i   |-> [i \in DOMAIN br |-> IRep(br, ref, s, i)],
    p   |-> [i \in DOMAIN br |-> Pow(br, ref, s, i)]]
-Emit == InDomain => PrintT(<<"CASE", ToJson([br |-> br, ref |-> ref, expect |-> Expect])>>)
-\* ill-posed but valid networks are emitted without expectation (the code must not crash differently
-\* than by its documented behaviour; nothing is compared)
+Check == Shape => LET s == SolveOpt(br, ref) IN
+   s # <<>> =>
+     /\ Assert(IsSolutionVec(br, ref, s), "C01_Kirchhoff: the constructive solution violates the circuit equations")
+     /\ Assert(PowerBalance(br, ref, s), "C05_Tellegen: powers do not sum to zero")
+     /\ PrintT(<<"CASE", ToJson([br |-> br, ref |-> ref, expect |-> Observe(s)])>>)
+\* the same properties as separate invariants (used by the thorough configuration)
+C01_Kirchhoff == InDomain => SolvedIsSolution(br, ref)
+C05_Tellegen  == InDomain => PowerBalance(br, ref, Solve(br, ref))
 =============================================================================
